@@ -163,11 +163,11 @@ type page struct {
 
 // eff holds, per site, the string actually handed to storrent.
 type world2 struct {
-	eff    map[byte]string
-	single bool
-	pages  []page
+	eff           map[byte]string
+	single        bool
+	pages         []page
 	peersUnstable bool
-	notes  []string
+	notes         []string
 }
 
 func connectPeer(t *tor.Torrent, id []byte, addr netip.AddrPort, ext refwire.Ext0) (net.Conn, error) {
